@@ -23,7 +23,7 @@ type prop struct{}
 func (*prop) ID() string    { return "C15" }
 func (*prop) Level() string { return "exploration" }
 func (*prop) Rule() string {
-	return "reference strings are generated from the grammar ref ::= [path '.'] ident ['[' ref {',' ref} ']'] as trees: exhaustively for (depth<=1, width<=3, 5 paths x 3 idents), (depth<=2, width<=3, 2 paths x 1 ident) and, in the thorough tier, (depth<=3, width<=2, 2 paths x 1 ident), " +
+	return "reference strings are generated from the grammar ref ::= [path '.'] ident ['[' ref {',' ref} ']'] as trees: exhaustively for (depth<=1, width<=3, 5 paths x 3 idents), (depth<=1, width<=3, 3 paths x 3 idents two of which are non-ASCII), (depth<=2, width<=3, 2 paths x 1 ident) and, in the thorough tier, (depth<=3, width<=2, 2 paths x 1 ident), " +
 		"plus seeded random trees up to depth 5 / width 4 over paths {none, a.io/x, github.com/a/b/v2, gopkg.in/yaml.v3, github.com/json-iterator/go, the target package}. " +
 		"Oracles per string s: ParseTypeRef(s) succeeds, its tree equals the generator's tree and String()==s; Walk visits every node once in pre-order; for refs with a top-level path ParseRef(s) and PkgImportPathAndExpose(s) split path/name at the same place (= the generator's); " +
 		"snippet.ID(s) rendered through a SnippetWriter equals the tree printed with every non-target path replaced by Imports()[path] and the target path dropped, and Imports() keys are exactly the non-target paths of the tree, each mapped to a valid identifier. " +
@@ -155,6 +155,8 @@ func (*prop) Cases(seed int64, tier string) []core.Case {
 	}
 	add(space{Name: "d1w3", Paths: allPaths, Idents: []string{"T", "List", "x_1"}, D: 1, W: 3}, 8)
 	add(space{Name: "d2w3", Paths: []string{"", "a.io/x"}, Idents: []string{"T"}, D: 2, W: 3}, 8)
+	// identifiers are Unicode letters and digits: multi-byte names at every position of an argument list
+	add(space{Name: "d1w3-unicode", Paths: []string{"", "a.io/x", target}, Idents: []string{"Größe", "名前", "T"}, D: 1, W: 3}, 4)
 	nrand, randN := 16, 4000
 	if tier == "thorough" {
 		add(space{Name: "d3w2", Paths: []string{"", "a.io/x"}, Idents: []string{"T"}, D: 3, W: 2}, 32)
@@ -397,7 +399,7 @@ func shrink(r *Ref, oracle string) *Ref {
 }
 
 var randPaths = []string{"", "", "a.io/x", "github.com/a/b/v2", "gopkg.in/yaml.v3", "github.com/json-iterator/go", target, "example.com/other/target", "k8s.io/api/core/v1"}
-var randIdents = []string{"T", "List", "Map", "x_1", "string", "int", "Pair"}
+var randIdents = []string{"T", "List", "Map", "x_1", "string", "int", "Pair", "Größe", "名前", "Δx", "Ünï_1"}
 
 func randTree(r *rand.Rand, depth, width int, top bool) *Ref {
 	t := &Ref{Name: randIdents[r.Intn(len(randIdents))]}
